@@ -36,7 +36,8 @@ def cases(draw, tier="quick"):
     case["bad_observers"] = draw(st.lists(st.fixed_dictionaries({
         "on": st.sampled_from(["all", "rule", "datasource", "parser"]),
         "raise_for": st.lists(st.integers(0, n - 1), max_size=4, unique=True),
-        "exc": st.sampled_from(["boom", "boom2", "skip", "content"])}), max_size=2))
+        "exc": st.sampled_from(["boom", "boom2", "skip", "content"]),
+        "kind": st.sampled_from(["function", "function", "partial", "object", "method"])}), max_size=2))
     return case
 
 
@@ -69,6 +70,18 @@ def check(case):
                 def o(c, broker):
                     if b.index.get(c) in ob["raise_for"]:
                         raise dyn.make_fault(ob["exc"], ("observer", b.index.get(c)))
+                kind = ob.get("kind", "function")
+                if kind == "partial":
+                    import functools
+                    return functools.partial(lambda tag, c, broker: o(c, broker), "tag")
+                if kind in ("object", "method"):
+                    class Watcher(object):
+                        def __call__(self, c, broker):
+                            return o(c, broker)
+
+                        def watch(self, c, broker):
+                            return o(c, broker)
+                    return Watcher() if kind == "object" else Watcher().watch
                 return o
             ctype = dr.ComponentType if ob["on"] == "all" else dyn.type_of(ob["on"])
             observers.append((make(), ctype))
